@@ -1737,126 +1737,58 @@ fn u3_ref_wire() {
     std::mem::forget(shim);
 }
 
-// ---------------------------------------------------------------- Content
-fn content_objects_enc() {
-    let ra = mkref("a1");
-    let rb = mkref("b2");
-    let fa: i32 = kani::any();
-    let fb: i32 = kani::any();
-    kani::assume(fa >= 0 && fa <= (1 << 30) && fb >= 0 && fb <= (1 << 30) && fa != fb);
-    let mut shim_e = EncShim::empty();
-    shim_e.id_to_referent = EncRefMap { keys: [ra, rb], vals: [fa, fb], n: 2 };
-    let (v0, v1) = (Variant::Content(Content::from_referent(ra)), Variant::Content(Content::from_referent(rb)));
-    let mut cb = newcb();
-    assert!(enc_Content(col2(&v0, &v1), &mut cb, &shim_e).is_ok());
-    let bytes = buffer_of(&cb);
-    // SourceTypes (2 = Object), UriCount 0, ObjectCount 2, ObjectRefs as a referent array, ExternalObjectCount 0
-    let mut s = Spec::new();
-    s.zz_i32([2, 2]);
-    s.le_u32(0);
-    s.le_u32(2);
-    s.zz_i32([fa, fb - fa]);
-    s.le_u32(0);
-    assert!(s.eq(bytes));
-    std::mem::forget(cb);
-}
+// ---------------------------------------------------------------- Content: no obligation
+// Measured: both the encode arm and the decode arm of Type::Content exhaust 20 GB / 1200 s in CBMC
+// even at unwind 6 with concrete shapes (VecDeque, String clones behind a niche-encoded enum tag).
+// The arm is therefore NOT under contract; DESIGN.md lists it under "out of reach".
 
-//@ obligation: U3.Content.enc.objects
-//@ props: C01 C03
-//@ fns: serialize_properties[Type::Content]
-//@ kind: bounded
-//@ bound: column of 2 values, both Object contents pointing at written instances (file referents symbolic in [0, 2^30])
-//@ checks: functional
+// ---------------------------------------------------------------- add_property (C15)
+//@ obligation: U9.addprop
+//@ props: C15
+//@ fns: add_property
+//@ kind: complete
 //@ covers: 1
-//@ timeout: 1200
-//@ note: SourceTypes follows the code (transformed i32 array); docs/binary.md calls it Array(Enum) - discrepancy recorded in DESIGN.md. Round trip = this layout composed with U3.Content.dec.objects over the same independent layout.
-#[kani::proof]
-#[kani::unwind(6)]
-fn u3_content_enc_objects() {
-    content_objects_enc();
-    kani::cover!(true, "end of harness reached");
-}
-
-//@ obligation: U3.Content.dec.objects
-//@ props: C01 C04
-//@ fns: decode_prop_chunk[Type::Content/VariantType::Content]
-//@ kind: bounded
-//@ bound: column of 2 values, both Object contents; wire built by the independent encoder from docs/binary.md with symbolic file referents in [0, 2^30]
 //@ checks: functional
-//@ covers: 1
-//@ timeout: 1200
-//@ note: the k-th Object entry of SourceTypes takes the k-th referent of ObjectRefs (order preserved)
+//@ timeout: 900
+//@ note: the verbatim body of deserializer::state::add_property over a builder double (ordered pushes + has_property scan), legacy property BrickColor -> new property (every colour): (a) legacy alone -> the migrated value under the NEW name; (b) explicit new value first, legacy second -> builder unchanged; (c) legacy first, explicit second -> the explicit value is pushed after the migrated one (later entry wins when the builder is collected - assumption on InstanceBuilder); the legacy name is never added
 #[kani::proof]
-#[kani::unwind(6)]
-#[kani::stub(alloc::fmt::format, crate::chunk::__verif::fmt_stub)]
-fn u3_content_dec_objects() {
-    let ra = mkref("a1");
-    let rb = mkref("b2");
-    let fa: i32 = kani::any();
-    let fb: i32 = kani::any();
-    kani::assume(fa >= 0 && fa <= (1 << 30) && fb >= 0 && fb <= (1 << 30) && fa != fb);
-    let mut s = Spec::new();
-    s.zz_i32([2, 2]);
-    s.le_u32(0);
-    s.le_u32(2);
-    s.zz_i32([fa, fb - fa]);
-    s.le_u32(0);
-    let mut shim = DecShim::new([fa, fb], 2, ra, rb);
-    let ti = DecTypeInfo::<2> { referents: [fa, fb], type_name: "" };
-    let r = dec_Content_Content(&s.buf[..s.len], &ti, &mut shim);
-    assert!(r.is_ok());
-    assert!(out!(shim, 0, Variant::Content(c) => match c.value() { ContentType::Object(r) => *r == ra, _ => false }));
-    assert!(out!(shim, 1, Variant::Content(c) => match c.value() { ContentType::Object(r) => *r == rb, _ => false }));
-    assert!(once_each(&shim));
-    kani::cover!(true, "end of harness reached");
-    std::mem::forget(shim);
-}
-
-fn content_mixed() {
-    let ra = mkref("a1");
-    let fa: i32 = kani::any();
-    kani::assume(fa >= 0 && fa <= (1 << 30));
-    let mut shim_e = EncShim::empty();
-    shim_e.id_to_referent = EncRefMap { keys: [ra, ra], vals: [fa, fa], n: 1 };
-    let c: [u8; 2] = kani::any();
-    kani::assume(c[0] < 0x80 && c[1] < 0x80);
-    let uri = unsafe { String::from_utf8_unchecked(vec![c[0], c[1]]) };
-    let (v0, v1) = (Variant::Content(Content::from_uri(uri)), Variant::Content(Content::from_referent(ra)));
-    let mut cb = newcb();
-    assert!(enc_Content(col2(&v0, &v1), &mut cb, &shim_e).is_ok());
-    let bytes = buffer_of(&cb);
-    let mut s = Spec::new();
-    s.zz_i32([1, 2]);
-    s.le_u32(1);
-    s.le_u32(2);
-    s.u8(c[0]);
-    s.u8(c[1]);
-    s.le_u32(1);
-    s.zz_i32([fa]);
-    s.le_u32(0);
-    assert!(s.eq(bytes));
-    std::mem::forget(cb);
-    std::mem::forget(v0);
-}
-
-//@ obligation: U3.Content.mixed
-//@ props: C01 C03
-//@ fns: serialize_properties[Type::Content]
-//@ kind: bounded
-//@ bound: column of 2 values: a 2-character ASCII URI and an Object content
-//@ checks: functional
-//@ covers: 1
-//@ tier: thorough
-//@ timeout: 1200
-#[kani::proof]
-#[kani::unwind(12)]
-fn u3_content_mixed() {
-    content_mixed();
-    kani::cover!(true, "end of harness reached");
+#[kani::unwind(4)]
+fn u9_addprop() {
+    use rbx_reflection::{MigrationOperation, PropertySerialization};
+    let n: u16 = kani::any();
+    let x = Color3uint8::new(kani::any(), kani::any(), kani::any());
+    if let Some(c) = BrickColor::from_number(n) {
+        let ser = PropertySerialization::Migrate(rbx_reflection::mk_migration("New", MigrationOperation::BrickColorToColor));
+        let legacy = ApCanonical { name: "Old", migration: Some(&ser) };
+        let plain = ApCanonical { name: "New", migration: None };
+        let want = c.to_color3uint8();
+        // (a) legacy alone
+        let mut a = ApInstance { builder: ApBuilder::new() };
+        ap_add_property(&mut a, &legacy, Variant::BrickColor(c));
+        assert!(a.builder.n == 1 && a.builder.keys[0] == 1);
+        assert!(match &a.builder.vals[0] { Some(Variant::Color3uint8(v)) => *v == want, _ => false });
+        // (b) explicit first, legacy second: explicit wins, nothing is added
+        let mut b = ApInstance { builder: ApBuilder::new() };
+        ap_add_property(&mut b, &plain, Variant::Color3uint8(x));
+        ap_add_property(&mut b, &legacy, Variant::BrickColor(c));
+        assert!(b.builder.n == 1 && b.builder.keys[0] == 1);
+        assert!(match &b.builder.vals[0] { Some(Variant::Color3uint8(v)) => *v == x, _ => false });
+        // (c) legacy first, explicit second: the explicit value is the LAST entry for the new name
+        let mut k = ApInstance { builder: ApBuilder::new() };
+        ap_add_property(&mut k, &legacy, Variant::BrickColor(c));
+        ap_add_property(&mut k, &plain, Variant::Color3uint8(x));
+        assert!(k.builder.n == 2 && k.builder.keys[0] == 1 && k.builder.keys[1] == 1);
+        assert!(match &k.builder.vals[1] { Some(Variant::Color3uint8(v)) => *v == x, _ => false });
+        kani::cover!(true, "end of harness reached");
+        std::mem::forget(a);
+        std::mem::forget(b);
+        std::mem::forget(k);
+        std::mem::forget(ser);
+    }
 }
 
 //@ canary: yes
-//@ props: C01 C03 C04 C13
+//@ props: C01 C03 C04 C13 C15
 //@ checks: functional
 #[kani::proof]
 #[kani::unwind(8)]
